@@ -61,6 +61,17 @@ def paths(body, sym, max_paths=4000):
         elif k == "switch":
             d = strip_deep(sym.operand(t["discr"]))
             if t.get("dty") == "bool":
+                exp = _option_predicate(body, d)
+                if exp is not None:
+                    f_t = None
+                    for v, tb in t["targets"]:
+                        if v == 0:
+                            f_t = tb
+                    if f_t is None:
+                        raise NotComparisonOnly("odd bool switch")
+                    for extra, truth in exp:
+                        stack.append((t["otherwise"] if truth else f_t, conds + extra, ret, seen))
+                    continue
                 a = atom(d)
                 f_t = None
                 for v, tb in t["targets"]:
@@ -78,6 +89,86 @@ def paths(body, sym, max_paths=4000):
             pass
         else:
             raise NotComparisonOnly(k)
+    return out
+
+
+def _tsubst(t, m):
+    if isinstance(t, tuple):
+        if len(t) == 2 and t in m:
+            return m[t]
+        return tuple(_tsubst(x, m) for x in t)
+    return t
+
+
+def _asubst(a, m):
+    if a[0] == "cmp":
+        return ("cmp", a[1], strip_deep(_tsubst(a[2], m)), strip_deep(_tsubst(a[3], m)))
+    if a[0] == "not":
+        return ("not", _asubst(a[1], m))
+    return a
+
+
+def _option_predicate(body, d):
+    """`opt.is_some_and(|v| p(v))` / `opt.is_none_or(|v| p(v))` / `opt.map_or(c, |v| p(v))` as a branch condition: the
+    same decision as `match opt { Some(v) => p(v), None => c }` — the closure's own paths with its parameter read as the
+    payload and its captures as the captured values (std's documented contract of the three combinators).
+    -> [(extra conditions, truth of the whole test)] or None when `d` is not such a call."""
+    if d[0] != "call" or len(d) < 4 or not isinstance(d[3], dict):
+        return None
+    info = d[3]
+    name = info.get("name")
+    if name not in ("is_some_and", "is_none_or", "map_or") or (info.get("krate") not in ("core", "std", "alloc")) \
+            or "option::Option" not in (info.get("res") or ""):
+        return None
+    args = d[2]
+    if name == "map_or":
+        if len(args) != 3:
+            return None
+        dflt = strip_deep(args[1])
+        if dflt[0] != "const" or not isinstance(dflt[1], (bool, int)):
+            return None
+        none_val, clo = bool(dflt[1]), strip_deep(args[2])
+    else:
+        if len(args) != 2:
+            return None
+        none_val, clo = (name == "is_none_or"), strip_deep(args[1])
+    if clo[0] != "closure" or body.facts is None:
+        return None
+    cb = body.facts.body(clo[1])
+    if cb is None:
+        return None
+    from .sym import Sym
+    opt = strip_deep(args[0])
+    m = {}
+    for uname, pl in cb.rec.get("upvars", []):
+        idx = None
+        for pe in pl.get("p", []):
+            if pe and pe[0] == "f":
+                try:
+                    idx = int(pe[1])
+                except (TypeError, ValueError):
+                    idx = None
+                break
+        if idx is not None and idx < len(clo[2]):
+            m[("upvar", uname)] = strip_deep(clo[2][idx])
+    if cb.arg_count >= 2:
+        m[("param", cb.local_name(2) or "_2")] = ("field", ("variant", opt, "Some"), "0", None)
+    try:
+        cps = paths(cb, Sym(cb))
+    except NotComparisonOnly:
+        return None
+    dtxt = "discr(%s)" % render(opt)
+    out = [([(("switch", dtxt, 0), True)], none_val)]
+    for cconds, cret in cps:
+        if cret is None:
+            return None
+        cc = [(_asubst(a, m), tr) for a, tr in cconds]
+        ra = _asubst(atom(cret), m)
+        if ra[0] == "const":
+            out.append(([(("switch", dtxt, 1), True)] + cc, ra[1]))
+        else:
+            out.append(([(("switch", dtxt, 1), True)] + cc + [(ra, True)], True))
+            out.append(([(("switch", dtxt, 1), True)] + cc + [(ra, False)], False))
     return out
 
 
